@@ -395,6 +395,16 @@ func (fx *FuncExec) loadField(st *State, reach *Term, key string, ref *Term, t t
 		if !v.tag.isConst() {
 			fx.addFact(ts.True(), ts.mk("<=", SBool, ts.Int(0), v.tag))
 		}
+		// the value of a variable of another package (io.EOF, io.ErrUnexpectedEOF ...) is not one of this package's own
+		// statically created objects (its errors.New values live at references 1000000 + index)
+		if strings.HasPrefix(key, "global:") && strings.Contains(strings.TrimPrefix(key, "global:"), "/") == false &&
+			strings.Contains(strings.TrimPrefix(key, "global:"), ".") && !strings.HasPrefix(key, "global:http2utils.") {
+			fx.addFact(ts.True(), ts.Or(ts.Eq(v.tag, ts.Int(0)), ts.Lt(v.val, ts.Int(1000000)), ts.Le(ts.Int(1100000), v.val)))
+			// the error variables a library exports (io.EOF, io.ErrUnexpectedEOF, bufio.ErrBufferFull ...) are not nil
+			if i := strings.LastIndex(key, "."); i >= 0 && (strings.HasPrefix(key[i+1:], "Err") || key[i+1:] == "EOF") {
+				fx.addFact(ts.True(), ts.Ne(v.tag, ts.Int(0)))
+			}
+		}
 		return v
 	case *types.Struct:
 		fs := make([]Value, u.NumFields())
